@@ -154,7 +154,7 @@ func (g *gen) corpus() {
 		}
 	}
 	// (3) an invoice of somebody else carrying the PAYMENT HASH of one of the mint's own unpaid invoices, for a smaller
-	//     amount: melting it must not settle the mint quote (F16: 1 sat burned, the quote PAID, its whole amount issued)
+	//     amount: melting it must not settle the mint quote (F17: 1 sat burned, the quote PAID, its whole amount issued)
 	if qv := s.OpMintQuote(128, "sat", 0, false); qv != nil {
 		if fi, err := env.LN.forgeInvoice(env.LN.byHash[qv.Hash], 1000); err == nil {
 			s.regExt(fi)
@@ -321,7 +321,19 @@ func (g *gen) outputs(total uint64, ksId string) []ReqOut {
 // mutateOutputs applies one adversarial variant to honest outputs
 func (g *gen) mutateOutputs(outs []ReqOut) ([]ReqOut, string) {
 	r := g.r
-	switch r.Intn(13) {
+	switch r.Intn(15) {
+	case 13: // the same point in upper-case hex (a valid spelling: the mint decodes B_ with hex.DecodeString)
+		if len(outs) > 0 {
+			i := r.Intn(len(outs))
+			outs[i].BM.B_ = strings.ToUpper(outs[i].BM.B_)
+			return outs, "B-uppercase"
+		}
+	case 14: // one point twice in one request, once in lower- and once in upper-case hex (two different strings)
+		if len(outs) >= 2 {
+			outs[1].BM.B_ = strings.ToUpper(outs[0].BM.B_)
+			outs[1].O = nil
+			return outs, "same-point-other-case"
+		}
 	case 0: // duplicate output (identical struct)
 		if len(outs) > 0 {
 			return append(outs, outs[r.Intn(len(outs))]), "dup-output"
@@ -427,6 +439,13 @@ var hostileSecrets = []string{
 	`["P2PK",{"nonce":"00","data":"02aaaaaaaaaaaaaaaaaaaaaaaaaaaaaaaaaaaaaaaaaaaaaaaaaaaaaaaaaaaaaaaaaa","tags":[["locktime","99999999999999999999999999"]]}]`,
 	`["P2PK",{"nonce":"00","data":"02aaaaaaaaaaaaaaaaaaaaaaaaaaaaaaaaaaaaaaaaaaaaaaaaaaaaaaaaaaaaaaaaaa","tags":[["pubkeys","zz"],["n_sigs","2"]]}]`,
 	`["P2PK",{"nonce":"00","data":"","tags":[]}]`,
+	// keys that are hex but not a compressed secp256k1 point: an x-only key, a point not on the curve, a bad prefix
+	`["P2PK",{"nonce":"00","data":"79be667ef9dcbbac55a06295ce870b07029bfcdb2dce28d959f2815b16f81798","tags":[]}]`,
+	`["P2PK",{"nonce":"00","data":"020000000000000000000000000000000000000000000000000000000000000005","tags":[]}]`,
+	`["P2PK",{"nonce":"00","data":"0579be667ef9dcbbac55a06295ce870b07029bfcdb2dce28d959f2815b16f81798","tags":[]}]`,
+	`["P2PK",{"nonce":"00","data":"0279be667ef9dcbbac55a06295ce870b07029bfcdb2dce28d959f2815b16f81798","tags":[["pubkeys","79be667ef9dcbbac55a06295ce870b07029bfcdb2dce28d959f2815b16f81798"],["n_sigs","1"]]}]`,
+	`["P2PK",{"nonce":"00","data":"0279be667ef9dcbbac55a06295ce870b07029bfcdb2dce28d959f2815b16f81798","tags":[["refund","00"],["locktime","1"]]}]`,
+	`["HTLC",{"nonce":"00","data":"0000000000000000000000000000000000000000000000000000000000000000","tags":[["pubkeys","79be667ef9dcbbac55a06295ce870b07029bfcdb2dce28d959f2815b16f81798"],["n_sigs","1"]]}]`,
 	`["P2PK",{"nonce":"00","data":"02","tags":null}]`,
 	`["P2PK",{}]`,
 	`["P2PK"]`,
@@ -451,7 +470,15 @@ func (g *gen) mutateInputs(ps []ReqProof) ([]ReqProof, string) {
 		ps[i].C = CInfo{Kind: "other", Enc: 0}
 		return ps, "nut10-hostile"
 	}
-	switch r.Intn(16) {
+	switch r.Intn(17) {
+	case 16: // keyset id in upper-case hex: another string, not the id of any keyset
+		if len(ps) > 0 {
+			i := r.Intn(len(ps))
+			if up := strings.ToUpper(ps[i].P.Id); up != ps[i].P.Id {
+				ps[i].P.Id = up
+				return ps, "id-uppercase"
+			}
+		}
 	case 0: // re-present an already consumed or locked secret
 		var used []*HProof
 		for _, hp := range all {
@@ -847,7 +874,7 @@ func (g *gen) step() {
 				s.regExt(li)
 				inv, mode = li, 2
 			}
-		case 4: // somebody else's invoice with the payment hash of one of the mint's own invoices, any amount (F16)
+		case 4: // somebody else's invoice with the payment hash of one of the mint's own invoices, any amount (F17)
 			if len(s.mintQs) > 0 {
 				q := s.mintQs[r.Intn(len(s.mintQs))]
 				if own := env.LN.byHash[q.Hash]; own != nil && !own.huge {
